@@ -160,7 +160,7 @@ func sameBytes(got LValue, want []byte) bool {
 	return eq
 }
 
-//verif:harness prop=C15 tier=quick qparams=bits:16 tparams=bits:30 bounds="quick: 35 directives over d i o x X c s with flags, width and precision; thorough: % + one of 12 flag sets + width {none,1,6,12} + precision {none,.0,.3} + one of d i o x X c s; numeric argument +-m for every m of 16 (quick) / 30 (thorough) bits, also with a fraction of .5 added (truncation toward zero); %c argument 0..255; %s argument <= 3 symbolic bytes"
+//verif:harness prop=C15 tier=quick qparams=bits:16 tparams=bits:16 tmaxpaths=120000 bounds="quick: 35 directives over d i o x X c s with flags, width and precision; thorough: % + one of 12 flag sets + width {none,1,6,12} + precision {none,.0,.3} + one of d i o x X c s; numeric argument +-m for every m of 16 bits, also with a fraction of .5 added (truncation toward zero); %c argument 0..255; %s argument <= 3 symbolic bytes"
 func H_C15_format() {
 	L := newL(Options{}, BaseLibName, StringLibName)
 	var spec cSpec
